@@ -31,6 +31,8 @@ def bootstrap(import_package: bool = True) -> None:
     if import_package:
         core.import_tree(src)
         sched.instrument_package(PKG_DIR)
+        if not sched._instrumented:
+            raise core.HarnessError(f"no code object of the package under {PKG_DIR} could be instrumented")
     import gc
 
     gc.collect()
